@@ -1,0 +1,31 @@
+//go:build verif
+
+package mailbox
+
+import (
+	"sync/atomic"
+
+	"github.com/kercylan98/vivid"
+)
+
+// VerifState is a read-only projection of the mailbox state for the verification harness.
+type VerifState struct {
+	Status, Paused     uint32
+	Num, SystemNum     int32
+	UserLen, SystemLen int64
+}
+
+// VerifState returns the current projection (each field read atomically, not as a snapshot).
+func (m *UnboundedMailbox) VerifState() VerifState {
+	return VerifState{
+		Status:    atomic.LoadUint32(&m.status),
+		Paused:    atomic.LoadUint32(&m.paused),
+		Num:       atomic.LoadInt32(&m.num),
+		SystemNum: atomic.LoadInt32(&m.systemNum),
+		UserLen:   m.buffer.Length(),
+		SystemLen: m.systemBuffer.Length(),
+	}
+}
+
+// VerifHandler returns the handler the mailbox delivers to.
+func (m *UnboundedMailbox) VerifHandler() vivid.EnvelopHandler { return m.handler }
